@@ -2021,6 +2021,13 @@ class Transport(threading.Thread, ClosingContextManager):
                     self.host_key_type
                 )
             )
+        # The signature blob is exactly (algorithm name, signature): anything
+        # after those two strings is not part of what gets verified.
+        sig_fields = Message(sig)
+        sig_fields.get_binary()
+        sig_fields.get_binary()
+        if sig_fields.get_remainder():
+            raise SSHException("Trailing data after the host key signature")
         if not key.verify_ssh_sig(self.H, Message(sig)):
             raise SSHException(
                 "Signature verification ({}) failed.".format(
